@@ -1,6 +1,31 @@
+"""C06, CombineLaw: combine_simulation_results over overlapping parameter grids obeys the merge law per
+parameter combination (cases and expected pairing from spec/sim/Params.tla)."""
+from ..core import pool_map
+from . import params_common as pc
+
+
 def run(ctx):
-    pass
+    thorough = ctx.tier == "thorough"
+    runs = [([[1, 2, 3]], [3], "combine/1param")]
+    runs.append(([[1, 2, 3], [1, 2]], [2, 2], "combine/2params"))
+    if thorough:
+        runs.append(([[1, 2, 3, 4], [1, 2, 3]], [3, 2], "combine/2params-large"))
+    for universe, maxlen, label in runs:
+        r = pc.run_tlc(ctx, "combine", universe, maxlen, label)
+        cases = r.emitted
+        res = pool_map(pc.run_case, cases, chunksize=max(1, len(cases) // 64))
+        for c, d in zip(cases, res):
+            ctx.ok(("combine", str(c["ga"]), str(c["gb"])))
+            if d:
+                ctx.violation(f"{label}: {d}", {"kind": "combine", "case": c})
+        if cases:
+            ctx.sample({"combine": {"ga": cases[len(cases) // 2]["ga"], "gb": cases[len(cases) // 2]["gb"],
+                                    "expected_pairing": cases[len(cases) // 2]["exp"]}})
+    ctx.require_actions(["Next"])
 
 
 def replay(ctx, c):
-    pass
+    d = pc.run_case(c["case"])
+    ctx.ok()
+    if d:
+        ctx.violation(d, c)
